@@ -117,6 +117,34 @@ def run_all(pid, args, seed):
                 continue
             with open(out) as f:
                 results.append(json.load(f))
+        # the coverage-guided stage (thorough tier of the pure properties): libFuzzer drives the same strategy and oracle
+        fuzz_runs = getattr(mod, 'FUZZ_RUNS', {}).get(args.tier)
+        if fuzz_runs and os.environ.get('VERIF_FUZZ_RUNS'):
+            fuzz_runs = int(os.environ['VERIF_FUZZ_RUNS'])
+        if fuzz_runs and not any(r.get('violations') for r in results):
+            fprocs = []
+            for i in range(nshards):
+                out = os.path.join(tmp, f'fuzz{i}.json')
+                cmd = [sys.executable, '-B', os.path.join(HERE, 'tools', 'fuzz.py'), pid, '--runs', str(fuzz_runs), '--seed', str(seed * 1000 + i + 1),
+                       '--result', out, '--corpus', os.path.join(tmp, f'corpus{i}')]
+                log = open(os.path.join(tmp, f'fuzz{i}.log'), 'w')
+                fprocs.append((i, out, subprocess.Popen(cmd, env=env, stdout=log, stderr=subprocess.STDOUT, cwd=HERE), log))
+            procs.extend(fprocs)
+            for i, out, p, log in fprocs:
+                try:
+                    rc = p.wait(timeout=max(1, limit - (time.time() - t0)))
+                except subprocess.TimeoutExpired:
+                    p.kill()
+                    errors.append(f'fuzz shard {i}: watchdog after {limit}s')
+                    continue
+                finally:
+                    log.close()
+                if rc != 0 or not os.path.exists(out):
+                    with open(os.path.join(tmp, f'fuzz{i}.log')) as f:
+                        errors.append(f'fuzz shard {i}: exit {rc}: ' + f.read()[-2000:])
+                    continue
+                with open(out) as f:
+                    results.append(json.load(f))
         return report(pid, mod, args, seed, results, errors, time.time() - t0)
     finally:
         for _, _, p, _ in procs:
